@@ -47,21 +47,23 @@ Definition tq_portion_loop (q : Traceql.script) (c : TraceqlPlan.ctx) (ps : list
   tq_run_calls q TraceqlPlan.MSearch (portion_ctxs c (Z.of_nat (List.length ps)) 0 ps) 1.
 
 (* ---------- profile selectors: prof/transpiler.StreamSelectorPlanner ----------
-   The planner object holds the parsed selectors only and Process writes no field: ProfSel.prof_selector is a
-   function of (table, window, selectors). Executions of one object over a list of windows: *)
-Definition prof_run (table : string) (cluster : bool) (sels : list selector) (ws : list (Z * Z)) : list (option string) :=
-  map (fun w => render (prof_selector table (fst w) (snd w) sels) cluster) ws.
+   The planner object holds the parsed selectors only and Process writes no field: ProfSel.prof_selector_abs is a
+   function of (table, window, selectors) and of the oracle "the anchored pattern matches the empty string" (re_full).
+   Executions of one object over a list of windows: *)
+Definition prof_run (re_full : string -> string -> bool) (table : string) (cluster : bool) (sels : list selector) (ws : list (Z * Z)) : list (option string) :=
+  map (fun w => render (prof_selector_abs re_full table (fst w) (snd w) sels) cluster) ws.
 
 (* cases evaluated inside Coq by checks/c14.py: the statements of successive Process calls on ONE real
    StreamSelectorPlanner object *)
 Record pcase := { pc_id : Z; pc_table : string; pc_cluster : bool; pc_sels : list selector;
-                  pc_windows : list (Z * Z); pc_obs : list (option string) }.
+                  pc_windows : list (Z * Z); pc_obs : list (option string);
+                  pc_empty : list (string * string * bool) }.      (* (pattern, "", the anchored pattern matches "") *)
 Definition p_ostr_eqb (a b : option string) : bool :=
   match a, b with Some x, Some y => String.eqb x y | None, None => true | _, _ => false end.
 Fixpoint p_olist_eqb (a b : list (option string)) : bool :=
   match a, b with [], [] => true | x :: r, y :: r' => p_ostr_eqb x y && p_olist_eqb r r' | _, _ => false end.
 Definition pcase_mismatch (c : pcase) : bool :=
-  negb (p_olist_eqb (prof_run (pc_table c) (pc_cluster c) (pc_sels c) (pc_windows c)) (pc_obs c)).
+  negb (p_olist_eqb (prof_run (PromSel.tbl_lookup (pc_empty c)) (pc_table c) (pc_cluster c) (pc_sels c) (pc_windows c)) (pc_obs c)).
 Definition prof_mismatches (cs : list pcase) : list Z := map pc_id (filter pcase_mismatch cs).
 
 (* ---------- TraceQL: ONE real plan object executed under a list of contexts (plain executions and portions of a complex
